@@ -29,21 +29,21 @@ CLAIMS = {
          "Filters of 1-3 words; items and seeds concrete in the insert model (hash constant-folded); FPP clause is statistical and not claimed.", "DESIGN.md section 4 C09"),
  "C10": ("rank / quantile range and monotonicity on concrete adversarial digests with symbolic queries (quick) and on symbolic 2-3 centroid digests (thorough), split-point handling incl. the empty list, cdf/pmf, total_weight/min/max of update.",
          "Digests of <= 3 centroids; symbolic-digest harnesses restrict values to integers |x| <= 2^20 and are thorough-tier only (float division circuits); boundary centroids of weight 1 assumed to sit at min/max; rank(quantile(q)) resolution is not claimed.", "DESIGN.md section 4 C10"),
- "C11": ("deserialize(serialize(s)) restores every field for symbolic states of Bloom, Count-Min (8 types), Frequent Items (u64), HLL list and Hll6/Hll8 arrays, compact theta v3 and v4 (every delta width), t-digest, plus the bit-packing and CPC coding kernels (all 63 widths, 22 Huffman tables, unary code, pair stream).",
-         "Small states (see bounds per harness); CPC flavor-level round trip only through its kernels; String items not covered.", "DESIGN.md section 4 C11"),
- "C12": ("An independent decoder written in the harness from the Java/C++ format documentation recovers the symbolic state from serialize()'s bytes (preamble fields, flags, endianness, order, sizes) for Bloom, Count-Min, Frequent Items, HLL list/Hll6/Hll8, compact theta v3/v4, t-digest; bit packing equals the MSB-first bit stream for all widths.",
-         "The oracle is my transcription of the published layouts (trusted); CPC compressed payload layout only via its kernels.", "DESIGN.md section 4 C12"),
- "C13": ("Images built by a spec encoder in the harness for variants this crate does not write (theta serial versions 1, 2 (empty/exact/estimating), 3 single-item; t-digest f32 and reference-implementation big-endian encodings; Bloom dirty bit count; HLL COMPACT-flag arrays) decode to the encoded state.",
-         "Small states; updatable Hll4 aux tables and non-compact list/set tables are covered by the parser harnesses of C14 only for no-panic, not for state equality.", "DESIGN.md section 4 C13"),
- "C14": ("Every byte string up to 40-72 bytes (all bytes and the length symbolic) fed to the deserializers of Bloom, Count-Min, Frequent Items (u64), HLL (list/set and array modes at lg_k 4), compact theta (v1-v4) and t-digest (both modes + compat): no panic of any kind; Ok values are exercised by follow-up operations.",
-         "Buffers <= 72 bytes; allocation clause only for count fields (bounded preallocation is fixed in the repo) - configuration-sized allocations of empty images are outside the claim; CPC deserialize is checked through its decoding kernels only.", "DESIGN.md section 4 C14"),
+ "C11": ("serialize() equals, byte for byte, the image produced by a spec encoder written in the harness from the format documentation, and the decoder applied to that image restores every field, for symbolic states of Bloom, Count-Min (8 types), Frequent Items (u64; never updated / fully purged / one item), HLL list and Hll4/Hll6/Hll8 arrays (unit level) plus the HLL dispatcher over every header, compact theta v3 (8 shapes) and v4 (tail path), t-digest (0-3 centroids, both merge directions); plus the bit-packing and CPC coding kernels (all 63 widths, 22 Huffman tables, unary code, pair stream).",
+         "Small states with a concrete shape per harness (see bounds) and symbolic contents; images <= 64 bytes (CBMC's constant propagation over array cells); CPC flavor-level round trip is thorough-tier; String items not covered.", "DESIGN.md section 4 C11"),
+ "C12": ("The byte-for-byte equality of serialize() with the spec encoder's image (preamble fields, flags, endianness, order, sizes transcribed from the Java/C++ format documentation) for Bloom, Count-Min, Frequent Items, HLL list/Hll4/Hll6/Hll8, compact theta v3, t-digest; v4 header fields and width; bit packing equals the MSB-first bit stream for all widths; codec widths and endianness.",
+         "The oracle is my transcription of the published layouts (trusted); CPC compressed payload layout only via its kernels in the quick tier.", "DESIGN.md section 4 C12"),
+ "C13": ("Images built by a spec encoder in the harness for variants this crate does not write (theta serial versions 1, 2 (empty/exact/estimating, zero-entry images), 3 single-item; t-digest f32 and reference-implementation big-endian encodings; Bloom dirty bit count; HLL COMPACT-flag arrays and updatable Hll4 aux tables) decode to the encoded state; the HLL dispatcher routes every header as documented.",
+         "Small states, entry counts concrete per instance; non-compact list/set tables are covered by the parser harnesses of C14 only for no-panic, not for state equality.", "DESIGN.md section 4 C13"),
+ "C14": ("Every byte string of one concrete length per instance (40-64 bytes; thorough tier: also cut at a list of shorter lengths) fed to the deserializers of Bloom, Count-Min (u8, i64), Frequent Items (u64 + its preamble checks), HLL (list, set, Hll4/6/8 at lg_k 4, the dispatcher over every header), compact theta (v1-v3, v4 with literal width/count, unknown versions) and t-digest (f64, f32, compat + the compat switch): no panic of any kind. The bytes that select a sub-parser or size a configuration-sized allocation are literals per instance, everything else is symbolic.",
+         "Buffers <= 64 bytes with concrete length (a slice of symbolic length defeats constant propagation: no verdict in 10 min); Vec::with_capacity replaced by Vec::new and ignored read errors forgotten instead of dropped (DESIGN 2.3); allocation clause only for count fields - configuration-sized allocations of empty images are outside the claim; CPC deserialize is checked through its decoding kernels.", "DESIGN.md section 4 C14"),
  "C15": ("Structural part only: capacity arithmetic for every k and the shared C10 harnesses; the centroid-count bound and rank accuracy depend on ln() over unbounded streams and are not claimed.",
          "see C10.", "DESIGN.md section 4 C15"),
  "C16": ("MurmurHash3 write() and XXH64 write() as inductive steps over arbitrary hasher states and chunk contents for boundary (buffered, chunk) length pairs, finish128/finish64 for every tail length, one-shot equality with independently written references, seed hash, coupon / theta hash / Count-Min seeds / Bloom positions derivations.",
          "64-bit multiplication abstracted as an uninterpreted function (sound for the equalities proved); chunk lengths <= 33 / 65 bytes; std Hash impls are std's contract.", "DESIGN.md section 4 C16"),
  "C17": ("Kani's automatic checks (overflow, bounds, debug_assert, assert, unreachable, unwrap/expect, division by zero, shift) are part of every harness of C02-C10; dedicated arithmetic harnesses cover the documented extremes (pseudo-phase, flavor, offsets, Golomb parameters, buffer lengths, Array6 window, capacities) for their whole admissible ranges.",
          "Dev-profile semantics (overflow checks and debug assertions on); release profile by native replay of counterexamples only.", "DESIGN.md section 4 C17"),
- "C18": ("Image length equals the layout's size formula for HLL list/Hll6/Hll8, Bloom, Count-Min, t-digest, theta; list <= 8 coupons, set load <= 3/4, theta entries <= 15/16 * 2k after every insert and k after trim, Frequent Items num_active <= capacity after every update/merge.",
+ "C18": ("Image length equals the layout's size formula (inside the byte-for-byte comparisons of C11) for HLL list/Hll4/Hll6/Hll8, Bloom, Count-Min, t-digest, theta; list <= 8 coupons, a set only exists with lg_size <= lg_k - 3 for every lg_k (mode life cycle) and is promoted at 3/4 load of 2^(lg_k-3) slots, theta entries <= 15/16 * 2k after every insert and k after trim, Frequent Items num_active <= capacity after every update.",
          "Step invariants at the small sizes of C02/C04/C07; CPC 0.1% size clause is statistical and not claimed.", "DESIGN.md section 4 C18"),
 }
 NOT_APPLICABLE = {
